@@ -3,6 +3,7 @@ CONSTANTS
   CfgChoices <- CfgsSim
   CtrlChoices <- CtrlsSim
   MethodChoices <- MethodsSim
+  TypeChoices <- NoTypes
   MaxCtrls = 3
   MaxMethods = 3
   SortBeforeReduce = TRUE
